@@ -1,6 +1,6 @@
 /-
 C15 — rebinning and resampling conserve counts and physical positions: the property theorems.
-Proofs are in `ProofsSSRB`, `ProofsGroup`, `ProofsData`, `ProofsTof`, `ProofsBins`, `ProofsTotal`, `ProofsPhi`, `ProofsZoom`, `ProofsInverse`; this file only states them.
+Proofs are in `ProofsSSRB`, `ProofsGroup`, `ProofsData`, `ProofsTof`, `ProofsBins`, `ProofsTotal`, `ProofsPhi`, `ProofsZoom`, `ProofsInverse`, `ProofsViewgram`; this file only states them.
 
 Units: axial coordinate `m` in quarter ring spacings (`Seg.m4`), TOF positions in unmashed TOF bins, image coordinates in `ℚ`.
 -/
@@ -11,11 +11,18 @@ import StirVerif.C15.ProofsTof
 import StirVerif.C15.ProofsPhi
 import StirVerif.C15.ProofsZoom
 import StirVerif.C15.ProofsInverse
+import StirVerif.C15.ProofsViewgram
 
 namespace StirVerif.C15
 open StirVerif.C01 Finset
 
-/-! ## SSRB -/
+/-! ## SSRB
+
+The theorems of this section are about `ssrbInfo` (`SSRB(ProjDataInfo, …)`) and `ssrbData` (`SSRB(ProjData& out, const ProjData& in, do_norm)`).
+The third overload, `SSRB(output_filename, in, num_segments_to_combine, …, do_norm, max_in_segment_num_to_process, num_tof_bins_to_combine)`
+(SSRB.cxx:144-163), is their composition — `ssrbData pin pout` with `ssrbInfo pin … = some pout` — which is exactly the hypothesis
+`hinfo` of `C15_ssrb_commutes_with_binning`, `C15_ssrb_targets_exact`, `C15_ssrb_conserves_total`; the correspondence run answers the
+`ssrbdata` operation a second time from the file that overload writes. -/
 
 /-- "puts the counts of every detector pair into the bin that the output geometry assigns to that pair" — the axial coordinate:
     in any segment whose axial positions sit on the physical rings, the `m` of the axial position assigned to ring pair `(r1, r2)`
@@ -160,7 +167,14 @@ theorem C15_witness_not_exact : ¬ (⟨2, 2, 3⟩ : Seg).Exact 1 ∧ (⟨2, 2, 3
   · decide
 
 /-! ## overlap interpolation / zoom (specification level; the transcribed loops `overlapVec`, `overlapIter` are compared with
-`specBox` on every operation of the correspondence run by the driver — that link is not a theorem) -/
+`specBox` on every operation of the correspondence run by the driver — that link is not a theorem).
+
+The same holds for the rows of `zoomViewgram` / `zoomViewgramInPlace` (`zoom_viewgram`, `zoom_viewgrams` on arc-corrected viewgrams,
+operation `zvg` of the correspondence): every row is `overlapVec` with `zoom = in_bin/out_bin` and
+`offset = (x cos φ + y sin φ)/in_bin` (`C15_zoom_viewgram_rows`), and the driver compares every row with `overlapSpecVec`.  So the
+one-axis theorems `C15_zoom_axis_preserve_sum`, `C15_zoom_axis_uniform`, `C15_zoom_axis_com_bound` below are, with `vin` = the input's
+tangential sampling, also the statements "counts of a row are conserved when the new tangential range covers the data", "uniform rows
+stay uniform (value · zoom)" and "the centroid of a row moves by at most half the sum of the bin sizes" for zoomed viewgrams. -/
 
 /-- `overlap_spec` + `zoom_preserve_sum` (any box boundaries): consecutive output boxes covering the input ⇒ the total is conserved -/
 theorem C15_overlap_conserves (n m : ℕ) (inv ic oc : ℕ → ℚ)
@@ -218,6 +232,44 @@ theorem C15_zoom_axis_com_bound (n m : ℕ) (inv : ℕ → ℚ) (ilo olo : ℤ) 
   zoom_axis_com_bound n m inv ilo olo zoom offset vin hz hv hl hr hpos htot
 
 
+/-! ## `zoom_viewgram` / `zoom_viewgrams` -/
+
+/-- "the result does not depend on whether it is produced in one call or composed through the in-place and two-step variants", for
+    viewgrams: `zoom_viewgram(viewgram, zoom, min_tang, max_tang, x, y)` (and, viewgram by viewgram, `zoom_viewgrams`) is
+    `zoom_viewgram(out, in, x, y)` on the geometry it constructs — tangential range `minT … maxT`, tangential sampling
+    `fl32 (in_bin / zoom)` — including the request that it short-cuts (`inBin`: any non-zero float). -/
+theorem C15_zoom_viewgram_variants_agree (zoom : ℚ) (minT maxT inLo : Int) (rows : List (List ℚ)) (inBin xoff yoff c s : ℚ)
+    (hb : inBin ≠ 0) (hfl : fl32 inBin = inBin) :
+    zoomViewgramInPlace zoom minT maxT inLo rows inBin xoff yoff c s
+      = (minT, fl32 (inBin / zoom),
+         zoomViewgram minT (maxT - minT + 1).toNat inLo rows inBin (fl32 (inBin / zoom)) xoff yoff c s) :=
+  zoomViewgramInPlace_eq zoom minT maxT inLo rows inBin xoff yoff c s hb hfl
+
+/-- "total counts are conserved" / "uniform regions stay uniform" in the simplest case: zoom 1, no shift, the same tangential range gives
+    back the data (`zoom_viewgram(out, in, 0, 0)`: "replacing out_viewgram with the new data").  The implementation at the pinned
+    revision returns without writing `out_viewgram` here; the harness oracle reports it (build/fixes/C15-1.diff). -/
+theorem C15_zoom_viewgram_identity (lo : Int) (n : Nat) (rows : List (List ℚ)) (b c s : ℚ) (hb : b ≠ 0)
+    (hrows : ∀ r ∈ rows, r.length = n) : zoomViewgram lo n lo rows b b 0 0 c s = rows :=
+  zoomViewgram_identity lo n rows b c s hb hrows
+
+/-- every axial position of a viewgram is zoomed on its own by the 1-D `overlap_interpolate` (`overlapVec`) along the tangential
+    direction, with `zoom = in_bin/out_bin` and the offset `(x cos φ + y sin φ)/in_bin` of the view -/
+theorem C15_zoom_viewgram_rows (outLo : Int) (outN : Nat) (inLo : Int) (rows : List (List ℚ)) (inBin outBin xoff yoff c s : ℚ)
+    (hne : ¬ (outLo == inLo ∧ rows.all (fun r => r.length == outN) ∧ fl32 (inBin / outBin) == 1 ∧ xoff == 0 ∧ yoff == 0)) :
+    zoomViewgram outLo outN inLo rows inBin outBin xoff yoff c s
+      = rows.map fun r =>
+          (overlapVec ⟨outLo, List.replicate outN 0⟩ ⟨inLo, r⟩ (fl32 (inBin / outBin)) (zoomViewgramOffset xoff yoff c s inBin) true).vals :=
+  zoomViewgram_rows outLo outN inLo rows inBin outBin xoff yoff c s hne
+
+/-- non-vacuity: two rows over the tangential positions −1, 0, 1 (bin size 2 mm), zoom 2 into positions −3 … 3, no shift:
+    the replacing overload gives tangential sampling 1 mm; the seven output bins (half an input bin wide) cover the three input bins, an
+    output bin straddling two input bins gets a quarter of each; the row sums 6 and 9 are conserved -/
+example : zoomViewgramInPlace 2 (-3) 3 (-1) [[1, 2, 3], [4, 4, 1]] 2 0 0 1 0
+    = (-3, 1, [[1 / 4, 1 / 2, 3 / 4, 1, 5 / 4, 3 / 2, 3 / 4], [1, 2, 2, 2, 5 / 4, 1 / 2, 1 / 4]]) := by decide +kernel
+example : (2 : ℚ) ≠ 0 ∧ fl32 2 = 2 := by decide +kernel
+example : zoomViewgram (-1) 3 (-1) [[1, 2, 3], [4, 4, 1]] 2 2 0 0 1 0 = [[1, 2, 3], [4, 4, 1]] :=
+  C15_zoom_viewgram_identity (-1) 3 _ 2 1 0 (by norm_num) (by decide)
+
 /-! ## `inverse_SSRB` -/
 
 /-- every output sinogram of `inverse_SSRB` is a convex combination of direct sinograms (non-negative weights summing to one) -/
@@ -234,6 +286,27 @@ theorem C15_inverse_ssrb_position (ms : List ℚ) (outM tol : ℚ) (htol : 0 ≤
       ((ms.getD a 0 ≤ outM ∧ outM ≤ ms.getD b 0) ∨ (ms.getD b 0 ≤ outM ∧ outM ≤ ms.getD a 0) →
         wa * ms.getD a 0 + wb * ms.getD b 0 = outM)) :=
   (inverseSsrb_shape ms outM tol htol ws h).position
+
+/-- **`inverse_SSRB`, every bin** (the correspondence compares every bin of every output sinogram, operation `invssrb`): with
+    `sinos` the direct sinograms (one list of `n` bins per axial position of `ms`), the output sinogram exists whenever the weights do,
+    has `n` bins, each bin is the combination of the bins at the *same* (view, tangential position) of the selected direct sinograms with
+    the weights of `C15_inverse_ssrb_convex` / `C15_inverse_ssrb_position`, and its total is the same combination of their totals
+    ("counts are neither created nor lost", "physical positions": nothing moves in view or tangential position). -/
+theorem C15_inverse_ssrb_bins (ms : List ℚ) (outM tol : ℚ) (htol : 0 ≤ tol) (sinos : List (List ℚ)) (n : Nat)
+    (hnum : sinos.length = ms.length) (hlen : ∀ r ∈ sinos, r.length = n) (ws : List (Nat × ℚ))
+    (h : inverseSsrbWeights ms outM tol = some ws) :
+    ∃ out, inverseSsrbSino ms outM tol sinos = some out ∧ out.length = n ∧
+      (∀ i, out.getD i 0 = (ws.map fun w => w.2 * (sinos.getD w.1 []).getD i 0).sum) ∧
+      out.sum = (ws.map fun w => w.2 * (sinos.getD w.1 []).sum).sum :=
+  inverseSsrbSino_bins ms outM tol htol sinos n hnum hlen ws h
+
+/-- the direct sinograms that `inverse_SSRB` reads exist (their axial position is inside the input) -/
+theorem C15_inverse_ssrb_reads_inside (ms : List ℚ) (outM tol : ℚ) (ws : List (Nat × ℚ))
+    (h : inverseSsrbWeights ms outM tol = some ws) : ∀ w ∈ ws, w.1 < ms.length :=
+  inverseSsrb_index ms outM tol ws h
+
+/-- three direct sinograms of two bins at m = 0, 4, 8; output at m = 3: bin by bin ¼ of the first + ¾ of the second -/
+example : inverseSsrbSino [0, 4, 8] 3 (1 / 10000) [[4, 8], [8, 0], [1, 1]] = some [7, 2] := by decide +kernel
 
 /-- direct sinograms at m = 0, 4, 8 and an output sinogram at m = 3: weights ¾ on m = 4 and ¼ on m = 0 -/
 example : inverseSsrbWeights [0, 4, 8] 3 (1 / 10000) = some [(0, 1 / 4), (1, 3 / 4)] := by decide +kernel
